@@ -87,7 +87,7 @@ REGISTRY['C02'] = numeric('C02', 'c02_exp.cpp', nq=30000, nt=1000000,
                           rule='exp: ' + RULE_STRATA, assumptions=ASSUME_FP)
 REGISTRY['C03'] = numeric('C03', 'c03_log.cpp', nq=30000, nt=1000000,
                           rule='log: production routes {independent coefficients in both hemispheres, inverse, exp, exp beyond pi, products of two near-pi '
-                               'rotations about almost the same axis (angle 2pi-eps), Random()} x ' + RULE_STRATA, assumptions=ASSUME_FP)
+                               'rotations about almost the same axis (angle 2pi-eps), Random(), composition chains of 3..42 large rotations} x ' + RULE_STRATA, assumptions=ASSUME_FP)
 REGISTRY['C01'] = numeric('C01', 'c01_group.cpp', nq=20000, nt=500000, extra_bins=exact_bins, extra_jobs=exact_jobs('C01'),
                           rule='group law: triples (X,Y,Z) of elements built from independently normalised rotation data in both hemispheres or through exp '
                                '(incl. beyond pi), Y=X and Y=Identity forced periodically, points up to 1e6; EXACT HALF: the same identities with == over an exact-rational scalar (harness/rational.h, __int128 fractions, rational unit quaternions by stereographic projection, both hemispheres) for SE2, SO3, SE3, SE_2_3, SGal3, R3, SO2 (coefficients only) and two bundles; ' + RULE_STRATA, assumptions=ASSUME_FP)
